@@ -35,6 +35,33 @@ func main() {
 				panic(fmt.Sprintf("handshake %d %d", a, b))
 			}
 			_ = lib.Started()
+			if v := lib.IfaceSend(); v != 13 {
+				panic(fmt.Sprintf("IfaceSend %d", v))
+			}
+			if v := lib.LabeledSelect(5); v != 9 {
+				panic(fmt.Sprintf("LabeledSelect %d", v))
+			}
+			if v := fmt.Sprint(lib.GoIndexed()); v != "[3 12]" {
+				panic("GoIndexed " + v)
+			}
+			if v := lib.RMWOrder(); v != 102 {
+				panic(fmt.Sprintf("RMWOrder %d", v))
+			}
+			if a, b, c := lib.TryLocks(); !a || b || !c {
+				panic(fmt.Sprintf("TryLocks %v %v %v", a, b, c))
+			}
+			if v := lib.Bits(); v != 5*16+9 {
+				panic(fmt.Sprintf("Bits %d", v))
+			}
+			if v := lib.ChanParam(); v != 2 {
+				panic(fmt.Sprintf("ChanParam %d", v))
+			}
+			if v, ok := lib.RangeAssign(); v != 5 || ok {
+				panic(fmt.Sprintf("RangeAssign %d %v", v, ok))
+			}
+			if v := lib.InitState(); v != "42 21 7 seven 42 7" {
+				panic("InitState after cold start: " + v)
+			}
 		})
 		if res.End != "done" {
 			fail("seed %d: %s", seed, res.String())
